@@ -443,11 +443,11 @@ PROPS = {
  },
  "C11": {
   "modules": ["OsmoVerif.Props.C11", "OsmoVerif.Props.C11Refresh", "OsmoVerif.Props.TieGenSuperfluid"],
-  "min_theorems": 75,
+  "min_theorems": 90,
   "fingerprints": [],
   "engines": [{"name": "superfluid", "kind": "app", "n": {"quick": 20000, "thorough": 200000}, "shards": {"quick": 4, "thorough": 16}, "env": NO_EXPORT_IMPORT}],
-  "rule": "history 0 of every shard is the scripted witness of the recorded findings; then histories of four classes (random 30%, dust 25%, slash 30%, "
-          "mixed 15%): 2-3 bonded validators (+1 address that is no validator), 3 owners, 1-2 superfluid-enabled share denoms (classic gamm pools; a "
+  "rule": "history 0 of every shard is the scripted witness of the recorded findings; then histories of five classes (random 25%, dust 20%, slash 25%, "
+          "mixed 10%, fault 20%): 2-3 bonded validators (+1 address that is no validator), 3 owners, 1-2 superfluid-enabled share denoms (classic gamm pools; a "
           "concentrated pool's full-range shares in about a third of the histories) + 1 pool that is not enabled, risk factor in {0, .05, .25, 1/3, .5, "
           ".999..., 1}, multipliers k/2, k/3, tiny, large, integer, random; 40-160 ops: lock (1 .. 2e19 shares, durations = / > / < unbonding time, "
           "multi-coin), add-to-lock, delegate, undelegate, unbond, undelegate-and-unbond (full / partial / too much / zero), begin-unlock (full / partial), "
@@ -458,8 +458,20 @@ PROPS = {
           "delegation, an undelegation or a second refresh at the low price, price recovery by f/2, f or 2f, refresh, undelegate); 'slashed validator' "
           "(real StakingKeeper.Slash at the current height with fractions 1/3, 1/7, .01, .5, .05, 1e-6, .1, .25 and power = current / half / 1 / "
           "current+1, before and after delegations, then undelegate / partial undelegate-and-unbond / top-up, a refresh after a 2-10x fall [burn path], "
-          "one after a 2-10x rise [mint path], more slashes); classes slash and mixed also slash at random points (7% of the ops).  Slashes that would "
-          "burn more than 60% of a validator's tokens are skipped (a 100% slash empties locks: outside the model). "
+          "one after a 2-10x rise [mint path], more slashes); classes slash and mixed also slash at random points (7% of the ops).  Random slashes that would "
+          "burn more than 60% of a validator's tokens are skipped.  FAULT class (and 1 in 5 macros of class mixed) - an INNER step of superfluid's all-or-nothing "
+          "branches fails while the outer transaction survives: 'power overflow' (a delegated lock is topped up by shares worth exactly what takes the "
+          "validator to 2^63 power units / one less / far more: staking's power index panics inside Delegate after mint+offset+send, ApplyFuncIfNoError "
+          "recovers; then refreshes, price moves, further top-ups, undelegations, a second lock on the validator) and 'validator without tokens' (the REAL "
+          "StakingKeeper.Slash with fraction 1 and power above the validator's: without a marked lock an ordinary slash line; with 1-3 delegated / one "
+          "undelegating lock the composite op `slashrefill` = the slash that empties every marked lock + AddTokensToLockByID of every emptied lock by its "
+          "owner in the same engine op [the hooks' mints are refused: ErrDelegatorShareExRateInvalid]; then top-ups of the delegated locks, refreshes after "
+          "2-10x price moves, undelegations, undelegate-and-unbond, new locks delegated to the dead validator and to a healthy one, further slashes).  After "
+          "1 op in 8 a FAULT PROBE on a discarded cache context (no op line): the branch itself (overlay export) with zero / negative / overflowing / "
+          "at-the-limit amounts; the real 100% slash followed by top-up, IncreaseSuperfluidDelegation, refresh, undelegate; an overflowing top-up and its "
+          "refresh; the bonded pool drained (InstantUndelegate fails after Unbond) under the burn branch, SuperfluidUndelegate and a refresh after a forced "
+          "multiplier fall; the REAL StakingKeeper.Jail followed by mint, burn, an (overflowing) top-up and a refresh on the jailed validator.  Atomicity oracle: snapshots (bank supply, offset, reported supply, module / intermediary / staking-pool balances, every validator, "
+          "every delegation record, markers, connections) right before every top-up, epoch, delegation and undelegation and around every probe call. "
           "An evaluation is one op with the full state compared (incl. every validator's tokens/shares and every intermediary account's delegation "
           "shares); non-trivial = every op except `advance`/`reset`; distinct = distinct op lines",
   "trusted_base": ["cosmos-sdk x/staking share arithmetic is MODELLED (Validator.Tokens/DelegatorShares, Delegate/AddTokensFromDel, ValidateUnbondAmount, "
@@ -469,9 +481,12 @@ PROPS = {
                    "x/gamm, x/concentrated-liquidity pools: the epoch's pool readings (OSMO backing, share supply / full-range liquidity) are inputs of the model; "
                    "so are the order in which GetAllIntermediaryAccounts iterates (by account address) and, for a slash, which concentrated-share locks the "
                    "concentrated-liquidity module refuses to prepare for slashing (observed on a discarded branch)",
-                   "message-server atomicity is reproduced by the engine with a cache context written back on success only"],
-  "assumptions": ["PARTIAL by construction: jailed/unbonding validators and the staking EndBlocker's validator-set update, validator power overflow (stake kept "
-                  "below 2^63 power units), 100% slashes, staking rewards and gauge distribution, asset removal by governance, UnbondConvertAndStake / unpool / "
+                   "message-server atomicity is reproduced by the engine with a cache context written back on success only",
+                   "cosmos-sdk DefaultPowerReduction (10^6) is a constant of the model (SuperfluidStaking.powerReduction); every reset line carries the real "
+                   "keeper's PowerReduction and the driver refuses a history in which it differs"],
+  "assumptions": ["PARTIAL by construction: jailed/unbonding validators and the staking EndBlocker's validator-set update, a lock left WITHOUT coins by a 100% slash "
+                  "and not topped up (the 100% slash is modelled together with the top-ups of the locks it empties: composite op slashrefill / OpS.slashRefill, "
+                  "whose lock parts are taken with the slash and whose hooks run after the validator update - disjoint state components), staking rewards and gauge distribution, asset removal by governance, UnbondConvertAndStake / unpool / "
                   "migration / position-level concentrated wrappers are outside the model; the generator stays inside the modelled regime",
                   "the epoch is SuperfluidKeeper.AfterEpochStartBeginBlock called directly and the lockup EndBlocker is its two keeper calls (no mint / "
                   "distribution BeginBlocker runs, so the OSMO supply is touched by superfluid and by slashes only)",
@@ -484,7 +499,10 @@ PROPS = {
                   "refresh_burn_rejected_witness, stake_after_slash_witness; observations outside the property's quantifier (slashing), see DESIGN.md C11); proved instead: refresh_recreates_missing_delegation with its "
                   "explicit bounds; the general refresh bound at rate != 1 (|stake - expected| <= 1/2 + one token per force-undelegation on the validator) is "
                   "decided by the oracle only",
-                  "the module's own invariant fails on the unchanged tree (F25)"],
+                  "the module's own invariant fails on the unchanged tree (F25)",
+                  "fault-injection regimes (validator without tokens, validator at 2^63 power units): the stake clauses are recorded as observations "
+                  "(outside-quantifier.stake:mint-blocked:*: the missing stake cannot be minted), the supply, marker and atomicity clauses are checked and proved; "
+                  "the burn branch's inner steps cannot be made to fail through messages - they are reached by probes on discarded contexts with a drained bonded pool"],
   "explanation": "state invariant (per lock: plain / delegated with exactly one staking marker and a connection to the same account / undelegating with "
                  "exactly one unstaking marker ending no later than the lock can; staking accumulation store = sum over connected locks) proved preserved by "
                  "every entry point and so along every history (induction over the op list) - in the second part over the staking model with share "
@@ -494,8 +512,13 @@ PROPS = {
                  "unstaking marker has not matured, failed calls are no-ops; reported supply: mint offsets the minted amount, burn offsets the amount actually "
                  "paid out by RemoveDelShares, so supply + offset is constant along every slash-free history and falls by exactly the burnt amount at a slash "
                  "(reported_supply_invariant); refresh: sets every stake to the expected value exactly at rate one (first part), re-creates a missing "
-                 "delegation with floor(S*e/T) shares worth (e - T/S', e] (second part). Model tied to the real keepers by differential run of the complete "
-                 "state after every op.",
+                 "delegation with floor(S*e/T) shares worth (e - T/S', e] (second part). Failing inner steps: mintS returns an error and no state when Delegate "
+                 "refuses a validator without tokens (mint_refused_without_tokens) or the power index would overflow (mint_refused_at_power_limit, threshold "
+                 "powerOverflows_iff); the callers that swallow the error continue from the state they had: failed_mint_leaves_no_trace / failed_mint_is_swallowed "
+                 "(top-up hook), topup_without_tokens_leaves_no_trace (whole AddTokensToLockByID), failed_refresh_branch_leaves_no_trace / "
+                 "refresh_without_tokens_leaves_no_trace (epoch), burn_refused_without_tokens; reported_supply_invariant covers OpS.slashRefill and every such "
+                 "history (reported_supply_invariant_with_failed_branches; failed_mint_history_example, power_overflow_history_example). Model tied to the real "
+                 "keepers by differential run of the complete state after every op.",
  },
  "C19": {
   # Props.C19 imports the per-module genesis models and proofs added for the export/import half:
